@@ -414,6 +414,19 @@ impl VM {
         setval: Option<Rc<Object>>,
         line: usize,
     ) -> Result<Rc<Object>, RTError> {
+        // A named layer property follows the selector field, like $n does:
+        // a layer the header does not announce is not there
+        if setval.is_none() && matches!(prop, PacketPropType::Vlan | PacketPropType::Ipv4 | PacketPropType::Ipv6) {
+            let selected = match eth.get_ethertype_raw() {
+                EtherTypes::Vlan => Some(PacketPropType::Vlan),
+                EtherTypes::Ipv4 => Some(PacketPropType::Ipv4),
+                EtherTypes::Ipv6 => Some(PacketPropType::Ipv6),
+                _ => None,
+            };
+            if selected != Some(prop) {
+                return Ok(Rc::new(Object::Null));
+            }
+        }
         let obj = match prop {
             PacketPropType::Dst => {
                 if let Some(val) = setval {
@@ -533,6 +546,19 @@ impl VM {
         setval: Option<Rc<Object>>,
         line: usize,
     ) -> Result<Rc<Object>, RTError> {
+        // A named layer property follows the selector field, like $n does:
+        // a layer the header does not announce is not there
+        if setval.is_none() && matches!(prop, PacketPropType::Vlan | PacketPropType::Ipv4 | PacketPropType::Ipv6) {
+            let selected = match vlan.get_ethertype_raw() {
+                EtherTypes::Vlan => Some(PacketPropType::Vlan),
+                EtherTypes::Ipv4 => Some(PacketPropType::Ipv4),
+                EtherTypes::Ipv6 => Some(PacketPropType::Ipv6),
+                _ => None,
+            };
+            if selected != Some(prop) {
+                return Ok(Rc::new(Object::Null));
+            }
+        }
         let obj = match prop {
             PacketPropType::Priority => {
                 if let Some(val) = setval {
@@ -663,6 +689,19 @@ impl VM {
         setval: Option<Rc<Object>>,
         line: usize,
     ) -> Result<Rc<Object>, RTError> {
+        // A named layer property follows the selector field, like $n does:
+        // a layer the header does not announce is not there
+        if setval.is_none() && matches!(prop, PacketPropType::Udp | PacketPropType::Tcp | PacketPropType::Ipv6) {
+            let selected = match ipv4.get_protocol_raw() {
+                Protocols::Udp => Some(PacketPropType::Udp),
+                Protocols::Tcp => Some(PacketPropType::Tcp),
+                Protocols::Ipv6 => Some(PacketPropType::Ipv6),
+                _ => None,
+            };
+            if selected != Some(prop) {
+                return Ok(Rc::new(Object::Null));
+            }
+        }
         let obj = match prop {
             PacketPropType::Version => {
                 if setval.is_some() {
@@ -873,6 +912,18 @@ impl VM {
         setval: Option<Rc<Object>>,
         line: usize,
     ) -> Result<Rc<Object>, RTError> {
+        // A named layer property follows the selector field, like $n does:
+        // a layer the header does not announce is not there
+        if setval.is_none() && matches!(prop, PacketPropType::Udp | PacketPropType::Tcp) {
+            let selected = match ipv6.get_next_header_raw() {
+                NextHeaders::Udp => Some(PacketPropType::Udp),
+                NextHeaders::Tcp => Some(PacketPropType::Tcp),
+                _ => None,
+            };
+            if selected != Some(prop) {
+                return Ok(Rc::new(Object::Null));
+            }
+        }
         let obj = match prop {
             PacketPropType::Version => {
                 if setval.is_some() {
